@@ -40,31 +40,47 @@ func (core *JApiCore) addMacro(d *directive.Directive) *jerr.JApiError {
 	}
 
 	core.macro[name] = d
+	core.macroNames = append(core.macroNames, name)
 
 	return nil
 }
 
 func (core *JApiCore) checkMacroForRecursion() *jerr.JApiError {
-	for macroName, macro := range core.macro {
-		if je := findPaste(macroName, macro); je != nil {
+	// Macros are checked in the order of their definition, so that the reported
+	// error does not depend on the map iteration order.
+	for _, macroName := range core.macroNames {
+		visited := map[string]struct{}{macroName: {}}
+		if je := core.findPaste(macroName, core.macro[macroName], visited); je != nil {
 			return je
 		}
 	}
 	return nil
 }
 
-func findPaste(macroName string, d *directive.Directive) *jerr.JApiError {
+// findPaste looks for a PASTE which leads back to the macro macroName, directly
+// or through other macros (a chain of any length).
+func (core *JApiCore) findPaste(macroName string, d *directive.Directive, visited map[string]struct{}) *jerr.JApiError {
 	if d.Type() == directive.Paste {
-		switch d.NamedParameter("Name") {
+		name := d.NamedParameter("Name")
+		switch name {
 		case "":
 			return d.KeywordError(fmt.Sprintf("%s (%s)", jerr.RequiredParameterNotSpecified, "Name"))
 
 		case macroName:
 			return d.KeywordError(jerr.RecursionIsProhibited)
 		}
+
+		if _, ok := visited[name]; ok {
+			return nil // already checked on this walk
+		}
+		visited[name] = struct{}{}
+
+		if m, ok := core.macro[name]; ok { // an undefined macro is reported by processPaste
+			return core.findPaste(macroName, m, visited)
+		}
 	} else if d.Children != nil {
 		for _, c := range d.Children {
-			if je := findPaste(macroName, c); je != nil {
+			if je := core.findPaste(macroName, c, visited); je != nil {
 				return je
 			}
 		}
